@@ -227,6 +227,66 @@ Proof.
       rewrite wr_alive_disk, E1; auto. eapply wr_alive_back; eauto.
 Qed.
 
+(* one step of insertChain's loop on a database of the family: the block is
+   processed on top of hb by WriteBlockWithState - whatever the budget, whatever
+   else is in the batch *)
+Lemma ic_step : forall side s rest prev, Fam (disk_of s) -> (prev = None \/ prev = Some hb) ->
+  ic_loop t side s ((b, ENone) :: rest) prev =
+  match write_block_with_state t hb b s with
+  | (s', ENone) => ic_loop t side s' rest (Some b)
+  | (s', e) => (s', e)
+  end.
+Proof.
+  intros side s rest prev HF Hprev. set (d := disk_of s) in *.
+  destruct (Fam_fields d HF) as [Fc [Fl [Fh [Fr [Fb [Fn [Fd Fs]]]]]]].
+  destruct hb_stored as [S1 [S2 [S3 S4]]].
+  assert (Hhbi : info t (bid hb) = Some hb) by (rewrite hb_id; auto).
+  assert (Hn0 : (bnum b =? 0) = false) by (apply N.eqb_neq; lia).
+  assert (Hpred : bnum b - 1 = bnum hb) by lia.
+  assert (Hcan : forall n, canon d n = canon d0 n) by (intros n; unfold canon; rewrite Fc; auto).
+  assert (Hgb : get_block t d (bid hb) (bnum hb) = Some hb).
+  { unfold get_block. assert (Hm : memN (bid hb) (d_body d) = true) by (apply memN_In; apply (In_either _ (bid b) (d_body d0)); auto).
+    rewrite Hm. apply get_header_intro; auto. apply (In_either _ (bid b) (d_hdr d0)); auto. }
+  assert (Hst : has_state d (broot hb) = true) by (apply memN_In; apply (In_either _ (broot b) (d_state d0)); auto).
+  assert (Hnone : get_header_by_number t d (bnum b) = None).
+  { unfold get_header_by_number. rewrite Hcan, Hfree. auto. }
+  assert (Hvb : validate_body t d b = ENone).
+  { unfold validate_body. rewrite Hnone, andb_false_r, Hn0.
+    unfold has_block_and_state. rewrite Hpar, Hpred, Hgb, Hst, Hbv. reflexivity. }
+  cbn [ic_loop]. fold d. rewrite Hvb.
+  assert (Hpp : match prev with Some p => Some p | None => parent_block t d b end = Some hb).
+  { destruct Hprev as [->| ->]; auto. unfold parent_block. rewrite Hn0, Hpar, Hpred, Hgb. auto. }
+  rewrite Hpp. fold d. rewrite Hst, Hbv. cbn [negb N.eqb].
+  destruct (write_block_with_state t hb b s) as [s' e']. destruct e'; reflexivity.
+Qed.
+
+(* if the node is alive after WriteBlockWithState of a child of its head, all three writes were applied *)
+Lemma wbws_alive : forall p x s, bpar x = cur s ->
+  let r := write_block_with_state t p x s in
+  snd r = ENone /\ cur (fst r) = bid x /\
+  (alive (fst r) ->
+   disk_of (fst r) =
+     apply_write ((match btxs x with [] => [] | _ :: _ => [WRcpt (bid x)] end) ++ [] ++ map (fun tx => WLook tx (bid x)) (btxs x) ++ stage_head x)
+       (apply_write (if broot x =? broot p then [] else [WState (broot x)]) (apply_write (block_batch x) (disk_of s)))).
+Proof.
+  intros p x s Hp. unfold write_block_with_state, write_block.
+  set (s1 := wr (block_batch x) s).
+  assert (C1 : cur s1 = cur s) by apply wr_cur.
+  set (s2 := if broot x =? broot p then s1 else wr [WState (broot x)] s1).
+  assert (C2 : cur s2 = cur s) by (unfold s2; destruct (broot x =? broot p); [auto|rewrite wr_cur; auto]).
+  rewrite C2, Hp, N.eqb_refl. cbv zeta. cbn [fst snd]. split; [reflexivity|]. split; [reflexivity|].
+  cbn [disk_of budget set_future set_cur]. unfold alive. cbn [budget set_future set_cur].
+  intros Ha. fold (alive (wr ((match btxs x with [] => [] | _ :: _ => [WRcpt (bid x)] end) ++ [] ++ map (fun tx => WLook tx (bid x)) (btxs x) ++ stage_head x) s2)) in Ha.
+  pose proof (wr_alive_back _ _ Ha) as A2.
+  rewrite wr_alive_disk; auto. f_equal.
+  assert (A1 : alive s1).
+  { unfold s2 in A2. destruct (broot x =? broot p); auto. eapply wr_alive_back; eauto. }
+  assert (A0 : alive s) by (eapply wr_alive_back; eauto).
+  unfold s2. destruct (broot x =? broot p).
+  - unfold s1. rewrite wr_alive_disk; auto.
+  - rewrite wr_alive_disk; auto. unfold s1. rewrite wr_alive_disk; auto.
+Qed.
+
 (* the fields of the database after the complete import *)
 Lemma d3_fields :
   d_canon d3 = aset (bnum b) (bid b) (d_canon d0) /\ d_hdr d3 = addN (bid b) (d_hdr d0) /\
